@@ -60,6 +60,10 @@ CLAIMS.update({
  "C16": coll_claim("Proved for every length, capacity and range: split_off's parts hold exactly the original elements in the documented order, their capacities add up and their buffers are disjoint and tile the original buffer; split_at / split_first / split_last partition likewise; merge of adjacent parts is the inverse of split_at, is defined iff the parts are adjacent in order, and rejects swapped parts; out-of-range arguments are rejected. Partial: partition, split_at_spare, into_flattened and string split_off (see C09) are oracle-only here; independence of the parts afterwards is C01/C02 on the arena model plus the fill-to-capacity sibling re-read oracle. Tie: exhaustive (len ≤ 9, cap ≤ 12, start ≤ end ≤ len) enumeration each run against the real types with address/capacity-exact correspondence.", "§7 C16"),
 })
 
+CLAIMS["C04"] = dict(engine="life", technique="Lean 4 proof (soundness of a region calculus whose typing rules are a signature table regenerated from the public API on every run; SigOK of the extracted table decided by the kernel) + rustc as correspondence oracle on a generated corpus of escape programs",
+    text="Partial by nature: proved that for every signature table satisfying the decidable adequacy predicate SigOK, every program of the calculus (call chains of the extracted methods, nested closures, guards, drops, thread sends) accepted by the calculus' checker runs without use-after-end, dead-arena or cross-thread fault; SigOK holds (by decide) for the table extracted from the current source minus the recorded deviation C04-a, whose negation is proved by witness; the extracted settings const-assertions imply that no conversion weakens a guarantee. Tie: the table is re-extracted each run (translator/sigs2lean.py, fails hard on unknown shapes) and the checker's verdict is compared with rustc's on 421 (quick) / 6228 (thorough) generated programs, each rejected escape with an accepted twin. Trusted: rustc's borrow checker, variance and auto-trait inference; the calculus covers straight-line call chains only (mem::swap of scopes, interior mutability, trait objects, unwinding are outside).",
+    ref="§7 C04", note=NOTE_COMMON + "rustc's borrow checker/variance/auto-trait inference; the effect class of each method (what ends an epoch) is assigned by name in the extractor; coverage of the calculus as stated.")
+
 NOT_YET = "check under construction in this round; will be claimed as soon as its theorem + correspondence + oracle run end-to-end (DESIGN.md §13)"
 
 def main():
@@ -97,6 +101,8 @@ def main():
              "kind_free_text": "pool state machine + theorems + ticket-linearised replay of real threads + oracles"},
             {"name": "coll", "path": "harness/src/bin/coll.rs (+ src/coll_inc) + lean/BumpProof/Coll + lean/Driver/CollD.lean + checks/engines/coll.py", "serves_properties": ["C06", "C08", "C16"],
              "kind_free_text": "slot-level model of the vector algorithms with callback oracles + theorems + correspondence harness + std::Vec / drop-ledger oracles"},
+            {"name": "life", "path": "translator/sigs2lean.py + lean/BumpProof/Life + lifecases/ + checks/engines/life.py", "serves_properties": ["C04"],
+             "kind_free_text": "signature-table extractor + region calculus with soundness proof + rustc verdict correspondence"},
             {"name": "purefn", "path": "harness/src/bin/purefn.rs + lean/Driver/Pure.lean + translator/rs2lean.py", "serves_properties": ["C11", "C12"],
              "kind_free_text": "translator (Rust subset → Lean) + translation validation + differential oracle against wide-integer specs"},
         ],
